@@ -16,7 +16,7 @@ import glob
 import os
 import re
 from collections import Counter
-from .common import walk, src, strip, AnchorError, load_table, REPO
+from .common import walk, src, strip, AnchorError, load_table, REPO, owner_root
 from . import hashorder
 
 NONDET = [
@@ -48,8 +48,25 @@ def run(chk, facts):
     hashorder.ADAPTERS.discard("from_residual")
     hashorder.ORDER_FREE.add("from_residual")
     table = load_table("hash_order.json")
-    reviewed = {(r["fn"], r["origin"], r["kind"]): r for r in table["sinks"]}
+    # sites are attributed to the function they belong to (closures to their function, single-caller private helpers to the caller):
+    # the table and the sites are normalised the same way, counts of entries that fall together add up
+    import re as _re
+    reviewed = {}
+    for r in table["sinks"]:
+        fn_ = r["fn"] if r["fn"] in mir.fns else _re.sub(r"(::\{closure#\d+\})+$", "", r["fn"])
+        key = (owner_root(mir, syn, fn_), r["origin"], r["kind"])
+        if key in reviewed:
+            prev = reviewed[key]
+            merged = dict(prev)
+            merged["count"] = prev["count"] + r["count"]
+            if r["disposition"] == "finding" and prev["disposition"] != "finding":
+                merged.update({"disposition": "finding", "finding": r["finding"], "reason": r["reason"]})
+            reviewed[key] = merged
+        else:
+            reviewed[key] = dict(r)
     sinks = hashorder.all_sinks(mir)
+    for s in sinks:
+        s["fn"] = owner_root(mir, syn, s["fn"])
     cnt = Counter((s["fn"], s["origin"], s["kind"]) for s in sinks)
     first = {}
     for s in sinks:
